@@ -47,7 +47,8 @@ FILLS = {
     "str": [("same", "zz"), ("int", 0), ("none", None)],
     "date": [("same", datetime.date(2000, 2, 2)), ("datetime", DT(2001, 2, 3, 4, 5)), ("int", 0), ("none", None)],
     "td": [("same", datetime.timedelta(7)), ("int", 0), ("none", None)],
-    "obj": [("int", 0), ("str", "z"), ("none", None), ("float", 1.5)],
+    # a fill value is ONE value, also when it happens to be iterable: every None position gets the tuple / list itself
+    "obj": [("int", 0), ("str", "z"), ("none", None), ("float", 1.5), ("tuple", (0, 0)), ("tuple1", (7,)), ("list", [7, 8]), ("empty", ())],
 }
 
 
